@@ -217,10 +217,19 @@ def layout_die_invariant_any_start(S, fixed, dims, focus, init):
     layout_die_body(S, fixed, dims, focus, init)
 
 
-def layout_die_body(S, fixed, dims, focus, init):
-    n = 3
+@contract(P, tier="thorough", functions=[A + "spectral_layout_die"],
+          params=[dict(fixed=f, dims=2, focus=k, init=i, topo=t) for (f, t) in (([0, 0, 0, 0], "path4"), ([0, 1, 0, 0], "star4"), ([0, 0, 0], "triangle"))
+                  for k in (1, 2) for i in ("random", "given")],
+          budget_s=3000, exact_feas_ms=0, leak_ok=True, shards=8, shard_depth=6, vc_timeout_s=60,
+          scope="as layout_die_invariant on 4-node graphs (path, star with a fixed leaf) and on the triangle")
+def layout_die_invariant_other_graphs(S, fixed, dims, focus, init, topo):
+    layout_die_body(S, fixed, dims, focus, init, topo)
+
+
+def layout_die_body(S, fixed, dims, focus, init, topo="path"):
     fixed = [bool(f) for f in fixed]
-    adj, w, _ = graph(S, "path")
+    adj, w, n = graph(S, topo)
+    assert n == len(fixed)
     size, mass, radius, initial = die_instance(S, n, fixed, dims, init)
     span = [[size[d] / 2 - radius[i] for i in range(n)] for d in range(dims)]
     ghost = Ghost()
